@@ -2,7 +2,7 @@
 import collections
 
 PROP = "C02"
-LEAN_MODS = ["Cte.Props.C02", "Cte.Props.C03Values"]
+LEAN_MODS = ["Cte.Props.C02", "Cte.Props.C03Values", "Cte.Props.C17Conv"]
 HARNESS = "c02"
 N = {"quick": 60, "thorough": 600}
 CORRESPONDENCES = ["Model::try_from accepts / rejects exactly when Conv.convert does (on the names and references of the parsed project)",
@@ -178,6 +178,27 @@ def compare_values(case, out):
                 a, b = x["thickness"], y["thickness"]
                 if len(a) != len(b) or any(not _veq(p, q) for p, q in zip(a, b)):
                     res.append((fam, f"{case['label']}: wallcons {x['name']}: layer thicknesses implementation {a}, model {b}"))
+    # schedules: every typed schedule converts (or the whole conversion would have failed); by kind and name
+    ms = {}
+    for sc in out.get("schedules", []):
+        if sc.get("rejected"):
+            res.append((fam, f"{case['label']}: the implementation converts, the model rejects one of the schedules"))
+        else:
+            ms[(sc["kind"], sc["name"])] = sc
+    for kind, key in (("day", "values"), ("week", "runs"), ("year", "periods")):
+        for x in iv.get("schedules", {}).get(kind, []):
+            y = ms.get((kind, x["name"]))
+            if y is None:
+                continue      # names squeezed by the parser (double blanks): compared in C18
+            _stats["values_compared_schedules_" + kind] += 1
+            if kind == "day":
+                a, b = x["values"], y["values"]
+                if len(a) != len(b) or any(not _veq(p, q) for p, q in zip(a, b)):
+                    res.append((fam, f"{case['label']}: daily schedule {x['name']}: implementation {len(a)} values {a[:3]}.., model {len(b)} values {b[:3]}.."))
+            else:
+                a, b = [tuple(p) for p in x[key]], [tuple(p) for p in y[key]]
+                if a != b:
+                    res.append((fam, f"{case['label']}: {kind} schedule {x['name']}: implementation {a[:5]}, model {b[:5]}"))
     return res[:4]
 
 
